@@ -572,16 +572,18 @@ theorem new_parse_nil :
   simp only [Req.Parser.new, List.append_nil, run_header_nil]
   decide
 
+/-- a connection suspended in `reading` -/
+def exR : Conn := { phase := .parseReq (Req.Parser.new 0 1) .reading, env := { tr := exTr }, scripts := [] }
+
 /-- The first poll of a fresh connection: initial `parse(0)`, nothing to write, read — parked in
 `reading`. -/
 theorem ex0_parks : ∃ c', pollConn 4 ex0 = (c', .pending) ∧ c'.env.tr.readWaker = true ∧
     c'.phase = .parseReq (Req.Parser.new 0 1) .reading := by
-  refine ⟨_, ?_, ?_, ?_⟩
-  · rw [C08.parse_before_read 3 ex0 _ _ _ rfl rfl new_parse_nil,
+  have h : pollConn 4 ex0 = pollConn 2 exR := by
+    rw [C08.parse_before_read 3 ex0 _ _ _ rfl rfl new_parse_nil,
       C08.output_written_before_read 2 _ _ [] rfl rfl [] exTr rfl]
     rfl
-  · rfl
-  · rfl
+  exact ⟨_, h.trans rfl, rfl, rfl⟩
 
 /-- hypotheses of the theorems hold … -/
 example : CInv ex0 ∧ ex0.env.tr.readWaker = false := ⟨CInv_init 0 1 _ _ _, rfl⟩
@@ -592,10 +594,8 @@ example : ∃ c', pollConn 4 ex0 = (c', .pending) ∧ OwesNothing c'.phase ∧ P
   exact ⟨c', h, parked_owes_nothing (CInv_init 0 1 _ _ _) rfl h hw,
     parked_processed (CInv_init 0 1 _ _ _) rfl h hw, parked_drained (CInv_init 0 1 _ _ _) rfl h hw⟩
 
-/-- a connection suspended in `reading` (as left by the poll above), polled again after a spurious
-wake-up: parks again -/
-def exR : Conn := { phase := .parseReq (Req.Parser.new 0 1) .reading, env := { tr := exTr }, scripts := [] }
-
+/-- `exR` (the state the poll above leaves, up to the trace) polled again after a spurious wake-up:
+parks again -/
 theorem exR_inv : CInv exR :=
   ⟨trivial, _, new_parse_nil, rfl, rfl, rfl, Or.inl rfl⟩
 
@@ -628,8 +628,8 @@ example : ∃ c' r h, pollConn 1 exH = (c', .pending) ∧ c'.phase = .handler r 
   obtain ⟨c', h, hw, hp⟩ := exH_parks
   cases hph : c'.phase with
   | handler r hs =>
-    exact ⟨c', r, hs, h, rfl, (parked_handler trivial rfl h hw hph).1,
-      parked_processed_handler trivial rfl h hw hph⟩
+    exact ⟨c', r, hs, h, hph, (parked_handler (c := exH) trivial rfl h hw hph).1,
+      parked_processed_handler (c := exH) trivial rfl h hw hph⟩
   | parseReq _ _ => rw [hph] at hp; cases hp
   | closing _ _ _ _ => rw [hph] at hp; cases hp
   | finished => rw [hph] at hp; cases hp
@@ -666,7 +666,7 @@ example : ∃ c' r st alive, pollConn 1 exW = (c', .pending) ∧ c'.phase = .clo
   obtain ⟨c', h, hw, hp⟩ := exW_parks
   obtain ⟨r, st, alive, hph⟩ := isClosingIn_spec hp
   refine ⟨c', r, st, alive, h, hph, ?_⟩
-  rcases parked_closing trivial rfl h hw hph with ⟨_, ho⟩ | hc
+  rcases parked_closing (c := exW) trivial rfl h hw hph with ⟨_, ho⟩ | hc
   · exact ho
   · cases hc
 
@@ -677,27 +677,59 @@ def exBsp : Str.Parser := { Str.Parser.fromParser 64 exReq [] 1 with pay := 5 }
 def exB : Conn :=
   { phase := .closing (AReq.new exBsp) .start (.complete 0) 0, env := { tr := exTr }, scripts := [] }
 
+/-- the stream parser after `set_stream(None)` -/
+def exBsp0 : Str.Parser := { exBsp with stream := none }
+
+theorem exBsp0_parse : exBsp0.parse [] none = (exBsp0, .ok (initStatus exBsp0)) :=
+  Quiescent.parse_nil ⟨Or.inl rfl, rfl, by decide⟩ none
+
+theorem exB_boundary : ∃ t', boundaryLoop 2 exBsp0 [] exTr = (exBsp0, t', .pending) ∧
+    t'.readWaker = true := by
+  simp only [boundaryLoop, exBsp0_parse, boundaryLoop.cont]
+  exact ⟨_, rfl, rfl⟩
+
+theorem exB_close : ∃ t', closePoll (AReq.new exBsp) .start (.complete 0) 0 none exTr =
+      ({ AReq.new exBsp with sp := exBsp0 }, .inBoundary, none, t', .pending) ∧ t'.readWaker = true := by
+  obtain ⟨t', hb, hw⟩ := exB_boundary
+  refine ⟨t', ?_, hw⟩
+  have h1 : closeP1 (AReq.new exBsp) .start none exTr = .ok (AReq.new exBsp, none, exTr, .start) := rfl
+  have h2 : closeP2 (AReq.new exBsp) none exTr .start =
+      .error ({ AReq.new exBsp with sp := exBsp0 }, .inBoundary, none, t', .pending) := by
+    rw [closeP2_start]
+    have : closeBoundary (spIgnore (AReq.new exBsp).sp) false exTr = boundaryLoop 2 exBsp0 [] exTr := rfl
+    rw [this, hb]; rfl
+  rw [closePoll_eq, h1]
+  simp only [h2]
+
+/-- the state the poll leaves -/
+def exB' (t' : Transport) : Conn :=
+  { phase := .closing { AReq.new exBsp with sp := exBsp0 } .inBoundary (.complete 0) 0,
+    env := { tr := t' }, scripts := [] }
+
 theorem exB_parks : ∃ c', pollConn 1 exB = (c', .pending) ∧ c'.env.tr.readWaker = true ∧
-    isClosingIn .inBoundary c'.phase = true :=
-  parkedIn_spec (by decide +kernel)
+    c'.phase = .closing { AReq.new exBsp with sp := exBsp0 } .inBoundary (.complete 0) 0 := by
+  obtain ⟨t', hc, hw⟩ := exB_close
+  have hc' : closePoll (AReq.new exBsp) .start (.complete 0) 0 exB.env.mutex exB.env.tr =
+      ({ AReq.new exBsp with sp := exBsp0 }, .inBoundary, none, t', .pending) := hc
+  refine ⟨exB' t', ?_, hw, rfl⟩
+  rw [pollConn_succ]
+  have : stepConn exB = .halt (exB' t') .pending := by
+    simp only [stepConn, exB] at hc' ⊢
+    rw [hc']
+    rfl
+  rw [this]; rfl
 
 example : CInv exB ∧ exB.env.tr.readWaker = false := ⟨trivial, rfl⟩
 
 example : ∃ c' r st alive, pollConn 1 exB = (c', .pending) ∧ c'.phase = .closing r .inBoundary st alive ∧
     r.sp.isRecordBoundary = false ∧ r.sp.pay = 5 := by
-  obtain ⟨c', h, hw, hp⟩ := exB_parks
-  obtain ⟨r, st, alive, hph⟩ := isClosingIn_spec hp
-  refine ⟨c', r, st, alive, h, hph, boundary_park_mid_record trivial rfl h hw hph, ?_⟩
-  have h2 : (pollConn 1 exB).1.phase = c'.phase := by rw [h]
-  have h3 : (match (pollConn 1 exB).1.phase with | .closing r _ _ _ => r.sp.pay | _ => 0) = 5 := by
-    decide +kernel
-  rw [h2, hph] at h3
-  exact h3
+  obtain ⟨c', h, hw, hph⟩ := exB_parks
+  exact ⟨c', _, _, _, h, hph, boundary_park_mid_record (c := exB) trivial rfl h hw hph, rfl⟩
 
 /-- the same connection polled again while still suspended in `inBoundary` (this poll starts from a
 state that needs the `BParked` part of the invariant): parks again, still mid-record -/
 def exB2 : Conn :=
-  { phase := .closing (AReq.new { exBsp with stream := none }) .inBoundary (.complete 0) 0,
+  { phase := .closing { AReq.new exBsp with sp := exBsp0 } .inBoundary (.complete 0) 0,
     env := { tr := exTr }, scripts := [] }
 
 theorem exB2_inv : CInv exB2 :=
